@@ -64,11 +64,17 @@ theorem C05_zero_effect (db : DB) (c : Cmd) (hb : classifyLock db c = .timeout) 
 
 /-- **Effect of firing.** `doTimeOut` answers TIMEOUT under the request's own id on its own connection and removes the
 request from the queue: afterwards it can no longer be granted (grants are made only to queued requests,
-`Slock.C04.C04_grant_is_head`), and no wake pass runs (see C04's finding). -/
+`Slock.C04.C04_grant_is_head`). Since the C04 fix a wake pass follows (the request may have been the head of the
+queue): the TIMEOUT reply may be followed by grants (SUCCED) to requests queued behind it. -/
 theorem C05_fire_effect (db : DB) (key : Nat) (w : Waiter) :
-    (fireTimeout db key w).2 = [mkReply { w.cmd with conn := w.conn } RESULT_TIMEOUT (db.getKey key).locked 0] ∧
-      ∀ x ∈ allW (fireTimeout db key w).1, x ∈ allW db :=
-  ⟨rfl, fun _ hx => mem_allW_fireTimeout hx⟩
+    (∃ more, (fireTimeout db key w).2 =
+        mkReply { w.cmd with conn := w.conn } RESULT_TIMEOUT (db.getKey key).locked 0 :: more ∧
+        ∀ r ∈ more, r.result = RESULT_SUCCED) ∧
+      ∀ x ∈ allW (fireTimeout db key w).1, x ∈ allW db := by
+  refine ⟨?_, fun _ hx => mem_allW_fireTimeout hx⟩
+  unfold fireTimeout
+  simp only []
+  exact wake_out_succed _ _ _
 
 /-- **Not late — local step (`_partial`).** When the sweeper visits a request whose deadline is still ahead it re-arms
 it for a second in `[now+1, deadline]`; when the deadline has been reached it is handed to `doTimeOut` in the same
